@@ -162,6 +162,9 @@ def _match(k, key):
             return ks.startswith(m["prefix"])
         if "contains_all" in m:
             return all(s in ks for s in m["contains_all"])
+        if "regex" in m:          # the whole key has to match
+            import re
+            return re.fullmatch(m["regex"], ks) is not None
     return ks == m
 
 
